@@ -540,4 +540,62 @@ def sockStream (atomic : Bool) (sched : List Nat) (threads : List (List (List By
   if atomic then (mergeBy sched (threads.map fun t => t.map List.flatten)).flatten
   else (mergeBy sched (threads.map List.flatten)).flatten
 
+/-! ### 6. the per-cpu perf files: what the client sends, and what the readers make of the files
+
+`record_perf_data` (utils/perf.c:163) sends the new part of cpu N's ring buffer as SEND_PERF_DATA(N, bytes)
+and returns early when there is nothing new, so a cpu without events sends nothing; the receiver creates
+perf-cpuN.dat when the first data for N arrives.  The local recorder (`setup_perf_record`) creates a
+perf-cpuN.dat for every cpu before tracing starts.  So the received directory has a file exactly for the
+cpus that had events, the local one an empty file for each of the others.
+
+The readers (`setup_perf_data`, utils/perf.c:254) take every file that glob("perf-cpu*.dat") returns, in that
+order, and `read_perf_data` hands out the events of all of them merged by time stamp. -/
+
+/-- the perf payloads a client sends for `cpu`, in order -/
+def perfParts (cpu : Nat) (ms : List Msg) : List Bytes :=
+  ms.filterMap fun m =>
+    match m with
+    | .perf c b => if c = cpu then some b else none
+    | _ => none
+
+/-- a perf event as far as the merge looks at it -/
+structure PEv where
+  time : Nat
+  tid : Nat
+  kind : Nat
+  deriving Repr, DecidableEq
+
+/-- one round of `read_perf_data` over the per-cpu readers (glob order): the reader whose next event has
+    the smallest time stamp — `if (perf->time < min_time)`: of equal stamps the first reader wins — and the
+    readers after that event is consumed; a reader at end of file (`done`) takes no part -/
+def perfBest : List (List PEv) → Option (PEv × List (List PEv))
+  | [] => none
+  | [] :: r => (perfBest r).map fun x => (x.1, [] :: x.2)
+  | (e :: es) :: r =>
+    match perfBest r with
+    | none => some (e, es :: r)
+    | some x => if x.1.time < e.time then some (x.1, (e :: es) :: x.2) else some (e, es :: r)
+
+/-- the events in the order the readers hand them to replay / report / dump (`fuel`: number of rounds) -/
+def perfMerge : Nat → List (List PEv) → List PEv
+  | 0, _ => []
+  | n + 1, fs =>
+    match perfBest fs with
+    | none => []
+    | some x => x.1 :: perfMerge n x.2
+
+/-- the files that hold at least one event -/
+def withEvents (fs : List (List PEv)) : List (List PEv) := fs.filter fun f => !f.isEmpty
+
+/-- `uftrace dump` (cmds/dump.c:1566): the number printed in "reading perf-cpu%d.dat" for every per-cpu
+    file that is not empty; the files in glob order as (cpu, has data).  As it is, the loop index `i` over
+    `handle->perf[]` is printed: the file's position in the glob result.  `fixed`: the cpu number of the
+    file (finding C16-DUMP-PERFIDX). -/
+def dumpLabelsFrom (fixed : Bool) : Nat → List (Nat × Bool) → List Nat
+  | _, [] => []
+  | i, (cpu, has) :: r =>
+    (if has then [if fixed then cpu else i] else []) ++ dumpLabelsFrom fixed (i + 1) r
+
+def dumpLabels (fixed : Bool) (fs : List (Nat × Bool)) : List Nat := dumpLabelsFrom fixed 0 fs
+
 end Uft.Net
